@@ -1,0 +1,140 @@
+/*
+ * Copyright (C) 2026 Nuts community
+ *
+ * This program is free software: you can redistribute it and/or modify
+ * it under the terms of the GNU General Public License as published by
+ * the Free Software Foundation, either version 3 of the License, or
+ * (at your option) any later version.
+ *
+ * This program is distributed in the hope that it will be useful,
+ * but WITHOUT ANY WARRANTY; without even the implied warranty of
+ * MERCHANTABILITY or FITNESS FOR A PARTICULAR PURPOSE.  See the
+ * GNU General Public License for more details.
+ *
+ * You should have received a copy of the GNU General Public License
+ * along with this program.  If not, see <https://www.gnu.org/licenses/>.
+ *
+ */
+
+package client
+
+import (
+	"net/http"
+	"strings"
+	"testing"
+	"time"
+
+	"github.com/nuts-foundation/nuts-node/test"
+	"github.com/stretchr/testify/assert"
+	"github.com/stretchr/testify/require"
+)
+
+// returns false if fn did not return within the timeout
+func returnsWithin(timeout time.Duration, fn func()) bool {
+	done := make(chan struct{})
+	go func() {
+		defer close(done)
+		fn()
+	}()
+	select {
+	case <-done:
+		return true
+	case <-time.After(timeout):
+		return false
+	}
+}
+
+func TestCachingRoundTripper_remoteResponseSizes(t *testing.T) {
+	newRequest := func(path string) *http.Request {
+		return &http.Request{Method: http.MethodGet, URL: test.MustParseURL("http://example.com" + path)}
+	}
+	t.Run("response of exactly the cache size does not block the cache", func(t *testing.T) {
+		sink := &stubRoundTripper{
+			statusCode: http.StatusOK,
+			data:       []byte(strings.Repeat("a", 16)),
+			headers:    map[string]string{"Cache-Control": "max-age=3600"},
+		}
+		client := NewCachingTransport(sink, 16)
+		ok := returnsWithin(10*time.Second, func() {
+			_, err := client.RoundTrip(newRequest("/1"))
+			assert.NoError(t, err)
+		})
+		require.True(t, ok, "RoundTrip did not return")
+		assert.LessOrEqual(t, client.cache.currentSizeBytes, 16)
+	})
+	t.Run("cache keeps working when it fills up", func(t *testing.T) {
+		sink := &stubRoundTripper{
+			statusCode: http.StatusOK,
+			data:       []byte(strings.Repeat("a", 6)),
+			headers:    map[string]string{"Cache-Control": "max-age=3600"},
+		}
+		client := NewCachingTransport(sink, 16)
+		ok := returnsWithin(10*time.Second, func() {
+			for _, path := range []string{"/1", "/2", "/3", "/4", "/5", "/6"} {
+				_, err := client.RoundTrip(newRequest(path))
+				assert.NoError(t, err)
+			}
+		})
+		require.True(t, ok, "RoundTrip did not return")
+		// everything that is indexed is also in the expiry list, and is accounted for
+		listed, listedBytes := 0, 0
+		for e := client.cache.head; e != nil; e = e.next {
+			listed++
+			listedBytes += len(e.responseData)
+		}
+		indexed := 0
+		for _, entries := range client.cache.entriesByURL {
+			indexed += len(entries)
+		}
+		assert.Equal(t, listed, indexed)
+		assert.Equal(t, listedBytes, client.cache.currentSizeBytes)
+		assert.LessOrEqual(t, client.cache.currentSizeBytes, 16)
+	})
+	t.Run("expired entry is not served after a later response was cached", func(t *testing.T) {
+		sink := &stubRoundTripper{
+			statusCode: http.StatusOK,
+			data:       []byte("Hello, World!"),
+			headers:    map[string]string{"Cache-Control": "max-age=3600"},
+		}
+		client := NewCachingTransport(sink, 1000)
+		client.cache.insert(&cacheEntry{
+			responseData:   []byte("stale"),
+			requestMethod:  http.MethodGet,
+			requestURL:     test.MustParseURL("http://example.com/1"),
+			expirationTime: time.Now().Add(-time.Minute),
+		})
+		client.cache.insert(&cacheEntry{
+			responseData:   []byte("fresh"),
+			requestMethod:  http.MethodGet,
+			requestURL:     test.MustParseURL("http://example.com/2"),
+			expirationTime: time.Now().Add(time.Hour),
+		})
+
+		_, err := client.RoundTrip(newRequest("/1"))
+		require.NoError(t, err)
+		assert.Equal(t, 1, sink.invocations, "expired entry was served from the cache")
+		_, err = client.RoundTrip(newRequest("/2"))
+		require.NoError(t, err)
+		assert.Equal(t, 1, sink.invocations, "fresh entry was not served from the cache")
+	})
+	t.Run("entries stay ordered by expiry", func(t *testing.T) {
+		client := NewCachingTransport(&stubRoundTripper{}, 1000)
+		now := time.Now()
+		for _, hours := range []int{3, 1, 2, 5, 4, 1} {
+			client.cache.insert(&cacheEntry{
+				responseData:   []byte("Hello"),
+				requestURL:     test.MustParseURL("http://example.com/" + string(rune('0'+hours))),
+				expirationTime: now.Add(time.Duration(hours) * time.Hour),
+			})
+		}
+		count := 0
+		for e := client.cache.head; e != nil; e = e.next {
+			count++
+			if e.next != nil {
+				assert.False(t, e.next.expirationTime.Before(e.expirationTime))
+			}
+		}
+		assert.Equal(t, 6, count)
+		assert.Equal(t, 30, client.cache.currentSizeBytes)
+	})
+}
